@@ -204,9 +204,15 @@ def build_harness():
 
 
 # ------------------------------------------------------------ running both sides
-def _run_bin(binary, text):
-    p = subprocess.run([str(binary)], input=text, stdout=subprocess.PIPE, stderr=subprocess.PIPE,
-                       text=True, env=ENV)
+def _run_bin(binary, text, timeout=900):
+    """(a binary that does not come back — the model driver on a case whose model diverges, e.g. a shrunk candidate with a
+    zero-period interval and no `take` — must not hang the check: it is stopped and reported as a run error)"""
+    try:
+        p = subprocess.run([str(binary)], input=text, stdout=subprocess.PIPE, stderr=subprocess.PIPE,
+                           text=True, env=ENV, timeout=timeout)
+    except subprocess.TimeoutExpired as ex:
+        out = ex.stdout.decode() if isinstance(ex.stdout, bytes) else (ex.stdout or "")
+        return 124, out, f"{binary} did not finish within {timeout}s"
     return p.returncode, p.stdout, p.stderr
 
 
